@@ -212,8 +212,14 @@ def clause_point(g: Any, p: list[float], c: V, k: int, state: dict) -> np.ndarra
         if U2 is not None:
             M2 = _np(U2)
             if M2.shape != M.shape or np.abs(M2 - M).max() > 1e-10 * (1 + l1):
-                c.bad('get_unitary_and_grad-unitary-differs-from-get_unitary',
-                      f'{at}: max difference {np.abs(M2 - M).max() if M2.shape == M.shape else "shape"}')
+                if M2.shape == M.shape and not _continuous_at(g, p, M):
+                    # get_unitary itself jumps at this point (e.g. the polar
+                    # projection of a numerically singular matrix): two
+                    # evaluations of the same formula need not agree -- no verdict
+                    c.n('uag_points_where_unitary_is_not_continuous')
+                else:
+                    c.bad('get_unitary_and_grad-unitary-differs-from-get_unitary',
+                          f'{at}: max difference {np.abs(M2 - M).max() if M2.shape == M.shape else "shape"}')
             if isinstance(U2, UnitaryMatrix) and tuple(U2.radixes) != state['radixes'] and radix_ok:
                 c.bad('get_unitary_and_grad-wrong-radixes',
                       f'{at}: unitary carries radixes {tuple(U2.radixes)}, gate advertises {state["radixes"]}')
@@ -244,6 +250,17 @@ def clause_point(g: Any, p: list[float], c: V, k: int, state: dict) -> np.ndarra
                     c.bad('inverse-times-gate-is-not-identity',
                           f'{at}: inverse gate {getattr(gi, "name", gi)} at {fmt(rp[1])}')
     return M
+
+
+def _continuous_at(g: Any, p: list[float], M: np.ndarray) -> bool:
+    for i in range(min(len(p), 8)):
+        for d in (1e-7, -1e-7):
+            q = list(p)
+            q[i] += d
+            m = _U(g, q)
+            if m is None or np.abs(m - M).max() > 1e-4:
+                return False
+    return True
 
 
 def _U(g: Any, p: Any) -> np.ndarray | None:
